@@ -286,8 +286,10 @@ func (fa *flowAn) paramFlow(f *ssa.Function, p ssa.Value) (retained, aliasRet bo
 							if u, ok := r.(*ssa.UnOp); ok && u.Op == token.MUL {
 								work = append(work, u)
 							}
-							if _, ok := r.(*ssa.MakeClosure); ok {
-								retained, why = true, "captured by a closure at "+fa.pos(r.Pos())
+							if mc, ok := r.(*ssa.MakeClosure); ok {
+								if esc, how := fa.closureEscapes(mc, 0); esc {
+									retained, why = true, "captured by a closure at "+fa.pos(r.Pos())+" that "+how
+								}
 							}
 						}
 					}
@@ -328,7 +330,9 @@ func (fa *flowAn) paramFlow(f *ssa.Function, p ssa.Value) (retained, aliasRet bo
 					retained, why = true, "sent on a channel at "+fa.pos(x.Pos())
 				}
 			case *ssa.MakeClosure:
-				retained, why = true, "captured by a closure at "+fa.pos(x.Pos())
+				if esc, how := fa.closureEscapes(x, 0); esc {
+					retained, why = true, "captured by a closure at "+fa.pos(x.Pos())+" that "+how
+				}
 			case *ssa.Return:
 				aliasRet = true
 			case ssa.CallInstruction:
@@ -767,4 +771,82 @@ func localAggregate(addr ssa.Value) *ssa.Alloc {
 		}
 	}
 	return nil
+}
+
+// closureEscapes: can the function value v (a closure, or a load of a local holding one) still
+// be called after the activation that made it has returned?  Calling it, deferring it, and
+// handing it to a callee that does not retain that parameter keep it inside the activation.
+func (fa *flowAn) closureEscapes(v ssa.Value, depth int) (bool, string) {
+	if depth > 4 {
+		return true, "is passed around too deeply to follow"
+	}
+	rs := v.Referrers()
+	if rs == nil {
+		return false, ""
+	}
+	for _, r := range *rs {
+		switch x := r.(type) {
+		case *ssa.Go:
+			return true, "runs in a goroutine started at " + fa.pos(x.Pos())
+		case *ssa.Defer:
+			continue
+		case *ssa.Call:
+			cc := x.Common()
+			if cc.Value == v {
+				continue // called here
+			}
+			callees, external := fa.callees(cc)
+			if external || callees == nil {
+				continue // standard library (sort.Slice, ...) or a dynamic callee: assumed not to keep it
+			}
+			off := 0
+			if cc.IsInvoke() {
+				off = 1
+			}
+			for ai, a := range cc.Args {
+				if a != v {
+					continue
+				}
+				for _, cal := range callees {
+					cs := fa.sum[cal]
+					if ai+off < len(cs.retains) && cs.retains[ai+off] {
+						return true, "is kept by " + cal.String()
+					}
+				}
+			}
+		case *ssa.Store:
+			if x.Val != v {
+				continue
+			}
+			al, ok := x.Addr.(*ssa.Alloc)
+			if !ok {
+				return true, "is stored at " + fa.pos(x.Pos())
+			}
+			if ars := al.Referrers(); ars != nil {
+				for _, ar := range *ars {
+					switch y := ar.(type) {
+					case *ssa.UnOp:
+						if y.Op == token.MUL {
+							if esc, how := fa.closureEscapes(y, depth+1); esc {
+								return true, how
+							}
+						}
+					case *ssa.MakeClosure:
+						if esc, how := fa.closureEscapes(y, depth+1); esc {
+							return true, how
+						}
+					}
+				}
+			}
+		case *ssa.ChangeType:
+			if esc, how := fa.closureEscapes(x, depth+1); esc {
+				return true, how
+			}
+		case *ssa.DebugRef:
+			continue
+		default:
+			return true, "is used at " + fa.pos(r.Pos()) + " in a way that is not followed"
+		}
+	}
+	return false, ""
 }
